@@ -4,10 +4,11 @@
    _combine_logical_parts / translate_comparator / _check_relationship_operands / _is_relationship_valued /
    _is_attribute_equality_join / _handle_attribute_equality_join / _translate_comparator_operand /
    _handle_contains_operator / OperatorMapper / DomainValueExtractor / translate_attribute /
-   _walk_attribute_chain / _apply_relationship_join / JoinManager   (tree at f599ad3: after the C07 fix: commits).
-   Kept defects: NULL comparisons follow SQL (C07-b); a bare string column as condition is WHERE col (C07-h);
-   an equality join whose target table is already marked as joined is dropped silently (C07-i); related
-   entities are compared by foreign key, i.e. by identity, not by the classes' __eq__ (C07-j). *)
+   _walk_attribute_chain / _apply_relationship_join / translate_truth_value / JoinManager
+   (tree at c0600cf: after all C07 fix: commits; pinned by pins/eqlsql.json).
+   Kept behaviours outside the property: an ordering comparison or a relationship hop that meets None follows SQL
+   (row dropped) where Python raises (C07-b2); related entities are compared by foreign key, i.e. by identity,
+   not by the classes' __eq__ (C07-j). *)
 From Coq Require Import List ZArith Bool Lia.
 From Krrood Require Import Base.Sx Orm.EqlToSqlSpec Orm.SqlAlg.
 Import ListNotations.
@@ -22,7 +23,7 @@ Definition encode (sc : schema) (w : world) : db := fun c => map row_of (instanc
 (* ---------- JoinManager + the statement under construction ---------- *)
 Record jm := {
   j_paths : list ((nat * Z) * nat);   (* aliases_by_path: (FROM element, relationship name) -> alias *)
-  j_tables : list Z;                  (* joined_tables: targets of equality joins AND classes of aliased targets *)
+  j_inst : list (Z * nat);            (* joined_tables: targets of equality joins, with their table instance *)
   j_joins : list join
 }.
 Definition jm0 : jm := Build_jm [] [] [].
@@ -47,7 +48,7 @@ Definition alias_for (st : jm) (src : nat) (a tgt : Z) : nat * jm :=
   | Some i => (i, st)
   | None =>
       let i := S (length (j_joins st)) in
-      (i, {| j_paths := ((src, a), i) :: j_paths st; j_tables := tgt :: j_tables st;
+      (i, {| j_paths := ((src, a), i) :: j_paths st; j_inst := j_inst st;
              j_joins := j_joins st ++ [JRel src a tgt] |})
   end.
 
@@ -85,6 +86,7 @@ Fixpoint chain_kind (sc : schema) (c : Z) (chain : list Z) : option fkind :=
                  end
   end.
 
+Definition eqne (op : cmpop) : bool := match op with OEq | ONe => true | _ => false end.
 Definition attr_name : Z := 1.      (* harness: "name" *)
 Definition attr_id_ : Z := 2.       (* harness: "id_" *)
 
@@ -130,21 +132,24 @@ Section Translate.
     (negb (is_rel l) || ((is_rel r || is_var r) && eqne)) &&
     (negb (is_rel r) || ((is_rel l || is_var l) && eqne)).
 
-  (* OperatorMapper.map_comparison_operator, with what SQLAlchemy does for == None / != None; None: ArgumentError,
-     re-raised as UnsupportedOperatorError *)
+  (* OperatorMapper.map_comparison_operator: != is NULL-safe (IS NOT), == between two columns is NULL-safe (IS),
+     == None is IS NULL; None: an ordering against None -> ArgumentError, re-raised as UnsupportedOperatorError *)
+  Definition is_col (e : sexpr) : bool := match e with SCol _ _ => true | _ => false end.
   Definition mk_cmp (op : cmpop) (l r : sexpr) : option spred :=
-    match r, op with
-    | SConst VNull, OEq => Some (SIsNull false l)
-    | SConst VNull, ONe => Some (SIsNull true l)
-    | SConst VNull, _ => None
-    | _, _ => Some (SCmp op l r)
+    match op with
+    | ONe => Some (SNullSafe true l r)
+    | OEq => if is_col l && is_col r then Some (SNullSafe false l r)
+             else match r with SConst VNull => Some (SIsNull false l) | _ => Some (SCmp OEq l r) end
+    | _ => match r with SConst VNull => None | _ => Some (SCmp op l r) end
     end.
 
   Fixpoint last_of (l : list Z) : option Z :=
     match l with [] => None | [a] => Some a | _ :: l' => last_of l' end.
 
-  (* _is_attribute_equality_join + _handle_attribute_equality_join: Some tr = handled there *)
-  Definition teqjoin (st : jm) (op : cmpop) (l r : operand) : option (tr unit) :=
+  (* _is_attribute_equality_join + _handle_attribute_equality_join: Some tr = handled there.  [io]: inside an or_.
+     The first join at conjunctive level carries the equality in its ON clause and contributes no condition; inside
+     an or_ the target is joined ON true, and whenever the target is joined already, the equality is an ordinary condition *)
+  Definition teqjoin (io : bool) (st : jm) (op : cmpop) (l r : operand) : option (tr (option spred)) :=
     match op, l, r with
     | OEq, OAttr v1 ch1, OAttr v2 ch2 =>
         if v1 =? v2 then None else
@@ -155,9 +160,14 @@ Section Translate.
                 if (c1 =? root) || (c2 =? root) then
                   let '(target, tfk, afk) := if c1 =? root then (c2, a2, a1) else (c1, a1, a2) in
                   if related sc target root then Some RReject       (* self joins are not supported *)
-                  else if memz target (j_tables st) then Some (ROk tt st)   (* already "joined": nothing is added (C07-i) *)
-                  else Some (ROk tt {| j_paths := j_paths st; j_tables := target :: j_tables st;
-                                       j_joins := j_joins st ++ [JEq target tfk 0%nat afk] |})
+                  else match assoc target (j_inst st) with
+                       | Some ti => Some (ROk (Some (SCmp OEq (SCol ti tfk) (SCol 0%nat afk))) st)
+                       | None =>
+                           let ti := S (length (j_joins st)) in
+                           Some (ROk (if io then Some (SCmp OEq (SCol ti tfk) (SCol 0%nat afk)) else None)
+                                     {| j_paths := j_paths st; j_inst := (target, ti) :: j_inst st;
+                                        j_joins := j_joins st ++ [if io then JCross target else JEq target tfk 0%nat afk] |})
+                       end
                 else Some RReject                                   (* needs the selected variable on one side *)
             | _, _ => None
             end
@@ -166,15 +176,12 @@ Section Translate.
     | _, _, _ => None
     end.
 
-  Definition is_eqne (op : cmpop) : bool := match op with OEq | ONe => true | _ => false end.
-
   (* translate_comparator for the six comparison operators *)
-  Definition tcmp (st : jm) (op : cmpop) (l r : operand) : tr (option spred) :=
-    match teqjoin st op l r with
-    | Some (ROk _ st') => ROk None st'
-    | Some RReject => RReject | Some RCrash => RCrash | Some RUnmod => RUnmod
+  Definition tcmp (io : bool) (st : jm) (op : cmpop) (l r : operand) : tr (option spred) :=
+    match teqjoin io st op l r with
+    | Some res => res
     | None =>
-        if negb (rel_check (is_eqne op) l r) then RReject else
+        if negb (rel_check (eqne op) l r) then RReject else
         match toperand st l with
         | ROk a st1 =>
             match toperand st1 r with
@@ -219,29 +226,29 @@ Section Translate.
     | None, b => b
     end.
 
-  (* translate_query *)
-  Fixpoint tcond (st : jm) (c : cond) : tr (option spred) :=
+  (* translate_query; [io] = or_depth > 0 *)
+  Fixpoint tcond (io : bool) (st : jm) (c : cond) : tr (option spred) :=
     match c with
-    | CCmp op l r => tcmp st op l r
+    | CCmp op l r => tcmp io st op l r
     | CContains ct it => tcontains st ct it
     | CAnd p q =>
-        match tcond st p with
-        | ROk a st1 => match tcond st1 q with
+        match tcond io st p with
+        | ROk a st1 => match tcond io st1 q with
                        | ROk b st2 => ROk (combine SAnd a b) st2
                        | RReject => RReject | RCrash => RCrash | RUnmod => RUnmod
                        end
         | RReject => RReject | RCrash => RCrash | RUnmod => RUnmod
         end
     | COr p q =>
-        match tcond st p with
-        | ROk a st1 => match tcond st1 q with
+        match tcond true st p with
+        | ROk a st1 => match tcond true st1 q with
                        | ROk b st2 => ROk (combine SOr a b) st2
                        | RReject => RReject | RCrash => RCrash | RUnmod => RUnmod
                        end
         | RReject => RReject | RCrash => RCrash | RUnmod => RUnmod
         end
     | CNot _ => RReject                                   (* UnsupportedQueryTypeError *)
-    | CTruth (OAttr v chain) =>
+    | CTruth (OAttr v chain) =>                           (* translate_truth_value *)
         match tattr st v chain with
         | ROk a st1 => ROk (Some (STruth a)) st1
         | RReject => RReject | RCrash => RCrash | RUnmod => RUnmod
@@ -260,7 +267,7 @@ Definition translate (sc : schema) (q : query) : tres :=
       match q_cond q with
       | None => TReject                     (* translate_query(None): UnsupportedQueryTypeError *)
       | Some c =>
-          match tcond sc (q_vars q) (q_sel q) root jm0 c with
+          match tcond sc (q_vars q) (q_sel q) root false jm0 c with
           | ROk p st => TOk {| s_root := root; s_joins := j_joins st; s_where := p; s_invalid := false |}
           | RReject => TReject | RCrash => TCrash | RUnmod => TUnmod
           end
@@ -283,17 +290,26 @@ Definition model_out (sc : schema) (q : query) (w : world) : sx :=
 
 (* ---------- the fragment F07 ---------- *)
 Definition scalar_val (v : val) : bool := match v with VInt _ | VStr _ => true | _ => false end.
+Definition nscalar (v : val) : bool := match v with VNull | VInt _ | VStr _ => true | _ => false end.   (* a column value *)
 Definition same_kind (a b : val) : bool :=
   match a, b with VInt _, VInt _ | VStr _, VStr _ => true | _, _ => false end.
+(* two column values that Python's == and SQL's = / IS treat alike: None against anything, or two values of one kind *)
+Definition compat (a b : val) : bool :=
+  match a, b with
+  | VNull, _ => nscalar b
+  | _, VNull => nscalar a
+  | _, _ => same_kind a b
+  end.
+Definition cmp_data (eqne : bool) (a b : val) : bool := if eqne then compat a b else same_kind a b.
 
 (* the chain can be followed on object o as the schema promises: every hop is a to-one relationship holding an
-   object of the target type, the end is a non-None scalar column *)
+   object of the target type (never None), the end is a scalar column whose value may be None *)
 Fixpoint twalk_data (sc : schema) (w : world) (o : obj) (ccls : Z) (chain : list Z) : option val :=
   match chain with
   | [] => None
   | a :: rest =>
       match field_kind sc ccls a, assoc a (o_fields o) with
-      | Some FScalar, Some v => match rest with [] => if scalar_val v then Some v else None | _ :: _ => None end
+      | Some FScalar, Some v => match rest with [] => if nscalar v then Some v else None | _ :: _ => None end
       | Some (FRel tgt), Some (VRef k) =>
           match rest with
           | [] => None
@@ -309,38 +325,46 @@ Fixpoint twalk_data (sc : schema) (w : world) (o : obj) (ccls : Z) (chain : list
 Definition operand_data (sc : schema) (w : world) (sel root : Z) (o : obj) (x : operand) : option val :=
   match x with
   | OAttr v chain => if v =? sel then twalk_data sc w o root chain else None
-  | OLit c => if scalar_val c then Some c else None
+  | OLit c => if nscalar c then Some c else None
   | _ => None
   end.
 
+(* data part, per object of the selected type: ==, != (also against None) between compatible values; <, <=, >, >= between
+   two non-None values of one kind; membership of a possibly-None value in a list of scalars of its kind; a possibly-None
+   column as condition *)
 Fixpoint cond_ok (sc : schema) (w : world) (sel root : Z) (o : obj) (c : cond) : bool :=
   match c with
   | CCmp op (OAttr v ch) r =>
       match operand_data sc w sel root o (OAttr v ch), operand_data sc w sel root o r with
-      | Some a, Some b => same_kind a b
+      | Some a, Some b => cmp_data (eqne op) a b
       | _, _ => false
       end
   | CContains (OList cs) (OAttr v ch) =>
       match operand_data sc w sel root o (OAttr v ch) with
-      | Some a => forallb (same_kind a) cs
+      | Some a => forallb (compat a) cs
       | None => false
       end
+  | CTruth (OAttr v ch) =>
+      match operand_data sc w sel root o (OAttr v ch) with Some _ => true | None => false end
   | CAnd p q | COr p q => cond_ok sc w sel root o p && cond_ok sc w sel root o q
   | _ => false
   end.
 
-(* syntactic part: comparisons of a scalar-ended chain of the selected variable with a scalar literal or another such chain,
-   membership of such a chain in a literal list of scalars, and_/or_ *)
+(* syntactic part: comparisons of a scalar-ended chain of the selected variable with a literal (None only under ==, !=)
+   or another such chain, membership of such a chain in a literal list of scalars, such a chain as condition, and_/or_ *)
 Definition operand_shape (sc : schema) (sel root : Z) (x : operand) : bool :=
   match x with
   | OAttr v ch => (v =? sel) && match chain_kind sc root ch with Some FScalar => true | _ => false end
-  | OLit c => scalar_val c
+  | OLit c => nscalar c
   | _ => false
   end.
+Definition none_lit (x : operand) : bool := match x with OLit VNull => true | _ => false end.
 Fixpoint cond_shape (sc : schema) (sel root : Z) (c : cond) : bool :=
   match c with
-  | CCmp _ (OAttr v ch) r => operand_shape sc sel root (OAttr v ch) && operand_shape sc sel root r
+  | CCmp op (OAttr v ch) r =>
+      operand_shape sc sel root (OAttr v ch) && operand_shape sc sel root r && (eqne op || negb (none_lit r))
   | CContains (OList cs) (OAttr v ch) => operand_shape sc sel root (OAttr v ch) && forallb scalar_val cs
+  | CTruth (OAttr v ch) => operand_shape sc sel root (OAttr v ch)
   | CAnd p q | COr p q => cond_shape sc sel root p && cond_shape sc sel root q
   | _ => false
   end.
